@@ -19,9 +19,13 @@ C11 = "changing an object that is already inside a network / after it was querie
 DIMENSIONS = {
     "Lanelet": {
         "ctor": {
-            "left_vertices": (V, "2..9 vertices, straight / curved / arc / tapered, four grid directions, 3-D + convert_to_2d"),
-            "center_vertices": (V, "mid line of the two boundaries (not part of the polygon)"),
-            "right_vertices": (V, "as left_vertices; adjacent lanes share it with the neighbour's left boundary"),
+            "left_vertices": (V, "2..9 vertices, straight / curved / arc / tapered, four grid directions, 3-D + convert_to_2d; numpy dtype of "
+                                  "the array chosen per array: float64 / float32 (where exact) / int64 / int32 (polylines moved onto the "
+                                  "integer grid), so that one lanelet mixes an integer boundary with a fractional float one "
+                                  "(buckets net/lanelet/dtype/*, obst/lanelet/dtype/*)"),
+            "center_vertices": (V, "mid line of the two boundaries (not part of the polygon); dtype varied like the boundaries"),
+            "right_vertices": (V, "as left_vertices (dtype chosen independently of the left boundary's); adjacent lanes share it with "
+                                   "the neighbour's left boundary"),
             "lanelet_id": (V, "1..499, 0, 2**40, numpy.int64; repeated in the input list; re-assigned by the setter before insertion"),
             "predecessor": (V, "ids of other lanelets of the case or a dangling id (cleanup_lanelet_references runs on removal)"),
             "successor": (V, "as predecessor"),
